@@ -15,7 +15,10 @@ RULE = (
     "case = (workflow spec from the confluent family or a random confluent DAG) x (delivery schedule: seeded random / LIFO "
     "order over the rows deliverable at the current virtual time, ack withheld with p in {0,.15,.3,.4} and the message "
     "redelivered later (<=2 times), one message of a chosen type held back k steps, duplicate StartStage injected); "
-    "every case is compared with its own FIFO exactly-once reference run. Non-trivial = the delivered sequence of "
+    "every case is compared with its own FIFO exactly-once reference run. Plus exhaustive branching: from cut points "
+    "of the FIFO run of 12 small workflows, EVERY choice (which deliverable row next x ack / withhold) to depth 3 (quick) "
+    "/ 6 (thorough), database copied at each choice point, states pruned on a canonical hash, FIFO drain below the bound. "
+    "Non-trivial = the delivered sequence of "
     "(message type, target) differs from the reference's; distinct = by hash of that sequence."
 )
 ASSUMPTIONS = [
@@ -48,6 +51,10 @@ def gen_cases(tier: str, seed: int) -> list[dict]:
     cases = []
     for i in range(nspecs):
         cases.append({"spec_i": i, "seed": seed, "nsched": nsched})
+    depth = 3 if tier == "quick" else 6
+    for i in range(12):
+        for cut in ((0, 6) if tier == "quick" else (0, 4, 8, 12)):
+            cases.append({"kind": "exhaustive", "spec_i": i, "cut": cut, "depth": depth, "seed": seed})
     return cases
 
 
@@ -153,7 +160,130 @@ def effect_oracles(spec: dict, run, prop: str = "C02") -> tuple[list[dict], Coun
     return out, obs
 
 
+def _exhaustive(case: dict) -> dict:
+    """Every delivery choice (which deliverable row next, ack or withhold) to a depth bound
+    from a cut point of the FIFO run; below the bound the run is drained FIFO.  Database
+    files are copied at each choice point; states are pruned on a canonical hash (statuses +
+    multiset of pending message types/targets + withheld set)."""
+    import hashlib
+    import json
+    import os
+    import shutil
+
+    from .. import env
+    from ..world import World
+
+    small = [specs.chain(2), specs.diamond(), specs.first_of(2), specs.self_loop(1), specs.jump_loop(1, 2), specs.transient(1, True), specs.polling(1), specs.failed_continue(), specs.or_split(), specs.quorum(3, 2), specs.synthetic(), specs.multitask()]
+    spec = small[case["spec_i"] % len(small)]
+    ref = delivery_run(spec, order="fifo")
+    obs: Counter = Counter()
+    keys: set = set()
+    violations: list[dict] = []
+    depth0 = case["depth"]
+    budget = ref.steps * 5 + 80
+    tmpd = os.path.join(env.scratch_dir(), f"exh-{os.getpid()}-{case['spec_i']}-{case['cut']}")
+    os.makedirs(tmpd, exist_ok=True)
+    counter = [0]
+    seen: set = set()
+
+    def state_hash(w: World, rows: list[dict]) -> str:
+        st = w.snapshot_state()
+        pend = sorted((r["type"], json.loads(r["payload"]).get("stage_id", ""), json.loads(r["payload"]).get("task_id", ""), r["id"] in w.withheld, r["attempts"] > 0) for r in rows)
+        blob = json.dumps([st["wf"], sorted((k, v["status"], tuple(map(tuple, v["tasks"]))) for k, v in st["stages"].items()), pend, len(w.ledger)], sort_keys=True, default=str)
+        return hashlib.sha1(blob.encode()).hexdigest()
+
+    def leaf(w: World, trail: list) -> None:
+        run = delivery_run({}, world=w, resubmit=False, max_steps=budget)
+        obs["evaluations"] += 1
+        obs["leaf_runs"] += 1
+        vs = compare_with_reference(spec, ref, run)
+        if any("INCONCLUSIVE" in x["sig"] for x in vs):
+            obs["budget_exhausted"] += 1
+            return
+        v2, o2 = effect_oracles(spec, run)
+        obs.update(o2)
+        for x in oracles.attribute(vs + v2, run, "C02"):
+            x.update(spec=spec["name"], exhaustive_trail=trail)
+            violations.append(x)
+        keys.add(f"exh:{spec['name']}:{case['cut']}:{hash(tuple(trail)) & 0xFFFFFFF:x}")
+
+    def explore(path: str, ledger: list, withheld: dict, depth: int, trail: list) -> None:
+        w = World(path=path, ledger=[dict(r) for r in ledger])
+        w.owns_file = False  # inner nodes are copied from; the whole directory is removed at the end
+        w.withheld = dict(withheld)
+        w.wf_id = w._exec_side("SELECT id FROM pipeline_executions LIMIT 1").fetchone()[0]
+        try:
+            rows = w.rows()
+            if not rows or depth == 0 or len(violations) > 3:
+                w.owns_file = True
+                leaf(w, trail)
+                w = None
+                return
+            h = state_hash(w, rows)
+            if h in seen:
+                obs["pruned_states"] += 1
+                return
+            seen.add(h)
+            obs["choice_points"] += 1
+            ready = w.eligible(rows)
+            options = []
+            for r in ready:
+                options.append((r["id"], r["type"], True))
+                if r["attempts"] < 2 and r["id"] not in w.withheld:
+                    options.append((r["id"], r["type"], False))
+            base_ledger = list(w.ledger)
+            base_withheld = dict(w.withheld)
+            w.close()
+            w = None
+            for rid, ty, ack in options:
+                counter[0] += 1
+                child = os.path.join(tmpd, f"n{counter[0]}.db")
+                shutil.copyfile(path, child)
+                cw = World(path=child, ledger=[dict(r) for r in base_ledger])
+                cw.owns_file = True
+                cw.withheld = dict(base_withheld)
+                cw.wf_id = cw._exec_side("SELECT id FROM pipeline_executions LIMIT 1").fetchone()[0]
+                cw.deliver(rid, ack=ack)
+                led, wh = list(cw.ledger), dict(cw.withheld)
+                cw.owns_file = False
+                cw.close()
+                explore(child, led, wh, depth - 1, trail + [f"{ty}{'' if ack else '!'}"])
+        finally:
+            if w is not None:
+                w.close()
+
+    # cut point: deliver `cut` messages FIFO first
+    start = World()
+    try:
+        start.submit(spec)
+        for _ in range(case["cut"]):
+            rows = start.rows()
+            if not rows:
+                break
+            start.deliver(start.eligible(rows)[0]["id"])
+        root = os.path.join(tmpd, "root.db")
+        start.copy_db(root)
+        led0 = list(start.ledger)
+    finally:
+        start.close()
+    try:
+        explore(root, led0, {}, depth0, [])
+    finally:
+        shutil.rmtree(tmpd, ignore_errors=True)
+    seen_s = set()
+    uniq = []
+    for x in violations:
+        if x["sig"] not in seen_s:
+            seen_s.add(x["sig"])
+            uniq.append(x)
+    obs["redeliveries"] += obs.get("marked_redeliveries", 0)
+    obs["reordered_runs"] += obs.get("leaf_runs", 0)
+    return {"violations": uniq, "obs": dict(obs), "keys": sorted(keys), "sample": {"spec": spec["name"], "cut": case["cut"], "depth": depth0, "choice_points": obs.get("choice_points", 0), "leaves": obs.get("leaf_runs", 0), "pruned": obs.get("pruned_states", 0)}}
+
+
 def run_case(case: dict) -> dict:
+    if case.get("kind") == "exhaustive":
+        return _exhaustive(case)
     spec = _spec_for(case["spec_i"], case["seed"])
     ref = delivery_run(spec, order="fifo")
     obs: Counter = Counter()
